@@ -1,6 +1,10 @@
 /* included BEFORE the real sources of the sub TU */
 #define VP_PROTO_GHOSTS 1
 #include "include/env_proto.h"
+/* sound over-approximation of memcpy (whole destination object havocked, bytes at the ghost
+ * indices g_k / g_hk re-established): the exact model of a symbolic-length copy does not finish */
+#define VP_MEMCPY_HAVOC_OBJECT 1
+#include "include/env_mem.h"
 #include "modules/message/spec.h"
 #include "modules/lmq/spec.h"
 #include "modules/sub/lists_pre.h"
